@@ -164,6 +164,18 @@ def gen_cases(tier, seed):
                 st = rng.choice(STYLES)
                 mk([{"api": "upload", "idx": 0x2100, "sub": sub}],
                    [entry(0x2100, sub, v, acc="ro")], st, cod, tag="odsize")
+    # (6b) implicit array members (array described by its first member) and a second close()
+    for dt in NUM_TYPES:
+        for served in (1, 2, 4, 8, 9):
+            for sub in (1, 2, 5, 255):
+                mk([{"api": "upload", "idx": 0x2200, "sub": sub}], [entry(0x2200, sub, payload(rng, served), acc="ro")],
+                   rng.choice(STYLES), [{"idx": 0x2200, "sub": 1, "dt": dt, "arr": True}], tag="odsize-array")
+    for n in (0, 1, 4, 5, 7, 8, 14, 20):
+        for bufg in (0, 7, 1024):
+            for decl in (True, False):
+                mk([{"api": "open_w", "idx": 0x2000, "sub": 0, "data": payload(rng, n), "size": n if decl else -1,
+                     "buffering": bufg, "chunks": random_split(rng, n), "mode": "wb", "double_close": True},
+                    {"api": "upload", "idx": 0x2000, "sub": 0}], [entry(0x2000, 0)], tag="double-close")
     # (7) histories: 2..5 transfers of mixed kinds on one client
     reps = 120 if tier == "quick" else 1500
     for i in range(reps):
